@@ -324,6 +324,10 @@ func (f *forwarder) pump(dst, src net.Conn, counter *int64, limit int64) {
 type encapConn struct {
 	io.ReadWriteCloser
 	bw *bufio.Writer
+	// packet-level isolation: every downstream packet on this carrier must belong to the
+	// KCP conversation of the session that presented the ClientID
+	conv    func() (uint32, bool)
+	foreign func(got uint32)
 }
 
 type dummyAddr struct{}
@@ -335,6 +339,13 @@ func (c *encapConn) ReadFrom(p []byte) (int, net.Addr, error) {
 	data, err := encapsulation.ReadData(c.ReadWriteCloser)
 	if err != nil {
 		return 0, dummyAddr{}, err
+	}
+	if c.conv != nil && len(data) >= 24 {
+		if want, ok := c.conv(); ok {
+			if got := binary.LittleEndian.Uint32(data[:4]); got != want {
+				c.foreign(got)
+			}
+		}
 	}
 	return copy(p, data), dummyAddr{}, nil
 }
@@ -372,7 +383,7 @@ type Result struct {
 }
 
 // dialOne establishes carrier number i of the session through a fresh forwarder.
-func (r *Rig) dialOne(ctx context.Context, s *Session, id turbotunnel.ClientID, spec Carrier, cuts *int64, inflight func() bool) (net.PacketConn, error) {
+func (r *Rig) dialOne(ctx context.Context, s *Session, id turbotunnel.ClientID, spec Carrier, cuts *int64, inflight func() bool, conv func() (uint32, bool), foreign func(uint32)) (net.PacketConn, error) {
 	// forwarder listener
 	fl, err := net.Listen("tcp", "127.0.0.1:0")
 	if err != nil {
@@ -442,7 +453,7 @@ func (r *Rig) dialOne(ctx context.Context, s *Session, id turbotunnel.ClientID, 
 		conn.Close()
 		return nil, err
 	}
-	return &encapConn{ReadWriteCloser: conn, bw: bufio.NewWriter(conn)}, nil
+	return &encapConn{ReadWriteCloser: conn, bw: bufio.NewWriter(conn), conv: conv, foreign: foreign}, nil
 }
 
 // Run executes one session to completion (or stall) and returns what was observed.
@@ -473,6 +484,14 @@ func (r *Rig) Run(s *Session, budget time.Duration) *Result {
 	inflight := func() bool {
 		return atomic.LoadInt64(&upSent) > atomic.LoadInt64(&st.upGot) || atomic.LoadInt64(&st.downSent) > atomic.LoadInt64(&downGot)
 	}
+	var convVal atomic.Value // uint32, set once the KCP conversation exists
+	getConv := func() (uint32, bool) {
+		v := convVal.Load()
+		if v == nil {
+			return 0, false
+		}
+		return v.(uint32), true
+	}
 	dialContext := func(dctx context.Context) (net.PacketConn, error) {
 		for {
 			select {
@@ -500,7 +519,10 @@ func (r *Rig) Run(s *Session, budget time.Duration) *Result {
 			for k := 0; k < spec.DialFailures; k++ {
 				time.Sleep(5 * time.Millisecond) // a failed attempt; the dial function retries, as the proxy pool does
 			}
-			pc, err := r.dialOne(ctx, s, id, spec, &cuts, inflight)
+			pc, err := r.dialOne(ctx, s, id, spec, &cuts, inflight, getConv, func(got uint32) {
+				want, _ := getConv()
+				clientErr.CompareAndSwap(nil, fmt.Sprintf("a carrier of session %016x (KCP conversation %08x) was sent a downstream packet of conversation %08x: packets of different sessions are mixed", s.Label, want, got))
+			})
 			if err != nil {
 				select {
 				case <-ctx.Done():
@@ -521,6 +543,7 @@ func (r *Rig) Run(s *Session, budget time.Duration) *Result {
 		return res
 	}
 	defer conn.Close()
+	convVal.Store(conn.GetConv())
 	conn.SetStreamMode(true)
 	conn.SetWindowSize(65535, 65535)
 	conn.SetNoDelay(0, 0, 0, 1)
